@@ -127,7 +127,7 @@ def register(PROPS, h):
                           "streams.cases": 30000, "streams.local-opens": 200000, "streams.remote-open:next-id-of-our-own-space": 100000},
                    thorough={"bytes.cases": 1200000, "header.cases": 1200000}),
         runs=dict(quick=[native("h-node", "C13")],
-                  thorough=[native("h-node", "C13"), native("h-node", "C13", profile="release"), dict(crate="h-node", prop="C13", wrapper="asan", cases=40000, shards=16, label="h-node:C13:asan", timeout=3600)]),
+                  thorough=[native("h-node", "C13"), dict(crate="h-node", prop="C13", wrapper="asan", cases=40000, shards=16, label="h-node:C13:asan", timeout=3600)]),
     )
 
     PROPS["C12"] = dict(
